@@ -775,7 +775,7 @@ static int runManual(const std::string &cfgStr, const std::string &script)
 // ------------------------------------------------------------------------------------------------ exploration
 static long long g_scripts = 0, g_ops = 0;
 static std::map<std::string, int> g_failPrinted;
-static bool g_stuckAfterTlsRedirect = false;   // this experiment delivered see-other-host on a TLS link (client hangs in Connecting: finding)
+static bool g_stuckAfterTlsRedirect = false;   // see-other-host on a TLS link and the client did not come back (fixed by e363fe9; key kept)
 // Output of one experiment is buffered: if a settle deadline was missed (overloaded machine) the experiment is discarded and
 // run again once; only the second miss is let through (and then shows up as a disagreement or an oracle failure).
 static std::string g_buf;
@@ -1116,7 +1116,7 @@ static void exploreC10(Runner &r, Rng &rng, bool thorough)
     { Cfg c; c.tls = 1; c.plainOk = true; cfgs.push_back(c); }
     { Cfg c; c.tls = 1; c.plainOk = true; c.inactive = true; cfgs.push_back(c); }
     { Cfg c; c.tls = 0; c.plainOk = true; c.sasl2 = false; cfgs.push_back(c); }
-    // (0) corpus: the witnesses of the recorded findings first
+    // (0) corpus: the witnesses of the former findings first (legacy login, redirect over TLS / in session, bind2Bound leak)
     auto byName = [&](const char *n) { for (auto &p : pols) if (p.name == n) return p; fprintf(stderr, "harness: no policy %s\n", n); exit(3); };
     struct Pair { const char *p1; int cut; const char *p2; int cfg; };
     for (Pair pr : { Pair { "legacy", -1, "sasl-bind", 0 }, Pair { "tls-redirect", -1, "sasl-bind", 0 }, Pair { "redirect-in-session", -1, "sasl-bind", 0 },
@@ -1249,7 +1249,7 @@ static void exploreC04(Runner &r, Rng &rng, bool thorough)
     const auto &A = alphabetSmall();
     int depth = thorough ? 4 : 3;
     if (getenv("NEG_SMALL")) depth = 2;
-    // corpus: the two defect witnesses and the plain successful paths first
+    // corpus: the two former defect witnesses (fixed by e0bbad9 / fa0779c) and the plain successful paths first
     runC04Script(r, cfgs[0], { "hdr 0 1", "fields 1 1" });
     runC04Script(r, cfgs[0], { "hdr 1 1", "iqget version" });
     runC04Script(r, cfgs[0], { "hdr 1 1", "feat t0 mp a1" });
